@@ -85,6 +85,9 @@ def ops_table(rng):
         "mktrend_nonodata": ("rain", lambda d: _drop_nodata(d).hdc.algo.mktrend()),
         "mean_grp": ("rain", lambda d: d.hdc.algo.mean_grp(grp)),
         "rolling_sum": ("rain", lambda d: d.hdc.rolling.sum(3)),
+        # a non-default dtype argument: whatever it means, it must mean the same for in-memory and dask-backed data
+        "rolling_sum_dtype": ("rain", lambda d: d.hdc.rolling.sum(3, dtype="float64")),
+        "spi_dtype": ("rain", lambda d: d.hdc.algo.spi(dtype="int32")),
         "zonal_mean": ("rain", lambda d: d.hdc.zonal.mean(zones, [0, 1, 2])),
         "zonal_mean_f64_named": ("rain", lambda d: d.hdc.zonal.mean(zones, [0, 1, 2], dtype="float64", name="zm")),
         "iteragg_sum": ("rain", lambda d: xr.concat(list(d.hdc.iteragg.sum(3)), "agg")),
